@@ -17,10 +17,19 @@ PID = "C13"
 GEN = []
 LEAN = ["Ymq.Props.C13"]
 AUDIT = "Ymq.Audit.C13"
-THEOREMS = []
+THEOREMS = ["Ymq.C13." + t for t in (
+    "cursor_inv small_recovery table_recovery large_table_recovery recycled_clean listed_complete_inv "
+    "listed_complete listed_complete_rehash cofactor_spec").split()]
 PROFILES = ["release", "chk"]
 TIMEOUT = 120.0
-HYPOTHESES = []
+HYPOTHESES = [
+    "try_factor64_sound (theorem cofactor_spec): when fbase::try_factor64 (Pollard rho / ECM, not modelled) returns Some((a, b)) "
+    "then a*b is its argument",
+    "FB.WF / RootsOK / RecycledOK (all sieve theorems): factor base strictly increasing with primes in [2, 2^24) and idx_by_log[l] = "
+    "index of the first prime of bit length >= l (checked on FBase::new by the sv_fb stream; proved for the synthetic bases: "
+    "FB.ofPrimes_WF), both root tables reduced (r < p, property C12), recycled SieveTable.overflows has its 32 slots (Rust type)",
+    "Dividers::{modu16, modi64, divmod_uint} are exact remainders/quotients (property C08: modu16_spec, modi64_spec)",
+]
 BLOCK = 32768
 NONE = 0xFFFF
 
@@ -725,9 +734,52 @@ def extra_coverage():
     return {"sieve_reports": tot}
 
 
-RULE = ""
-MODELLED = []
-UNMODELLED = []
-CLAIM = ""
-LEVEL_NOTE = ""
+RULE = ("factor bases: {40, 600, 1900, 1999/2000 (pskip boundary), 3600, 5000, 10000, 23000} primes, every prime kept with probability 1/2 "
+        "(0.9/1.0 for the dense variants: bucket overflows), so that the prime-size classes 2^13, 2^14, 2^15, 2^16, 2^19 are crossed; "
+        "root tables random with r < p, single-root primes (r1 = r2, the OFFSET_NONE marker) with probability 0/3%/20% among p < 32768; "
+        "scripts {plain, partial (skip k blocks, then report), recycle (tables of 1 or 2 previous sieves with other roots), rehash "
+        "(two interval shifts as qsieve does), overflow (17..29 primes of one size class with both roots in one 256-wide bucket), "
+        "overflow-lost (36..59 primes: more than 32 overflows), overflow-recycle, loverflow (> 1024 hits in one 16384-wide bucket)} x "
+        "nblocks in 0..12, start offsets {0, -M/2, random 40-bit}, root hint none/Some; the harness picks the threshold so that about "
+        "`want` positions are reported per block; every reported position is judged against EVERY factor-base prime; bucket tables "
+        "(svt/svl) through the hooks: spread and concentrated adds, with and without reset; cofactor: products of listed primes times "
+        "{1, prime, large prime, double large prime, huge}, lists with extra indices/duplicates/any order; non-trivial = at least one "
+        "position reported (sv) / any request (others); distinct by request line")
+MODELLED = [
+    "sieve::Sieve::new: pskip/idxskip, cursor initialisation of the first size class (u16 casts, OFFSET_NONE for r1 = r2), registration of "
+    "every hit of the second class (unrolled loop + two tail loops, in the order of the code) and of the third class, fresh or recycled "
+    "(asserted sizes, reset) tables; Sieve::{rehash, recycle, next_block}",
+    "sieve::Sieve::sieve_block: cursor update of the skipped primes (modu16 as %), of the classes log <= 12 (double loop) and 13..15 "
+    "(single loop), mem::swap of the two cursor arrays, existence of the table slices it reads",
+    "sieve::Sieve::smooths, second half ('Now find factors'): modu16 tests for p < 2^14, r == off || r == off + p (u32 comparison) for "
+    "2^14 <= p < 2^15, SieveTable lookup (bucket + 32 overflow slots, 8-bit prime index, candidate walk over the class range, is_factor), "
+    "SieveTableLarge lookup (bucket + overflow vector, 16-bit index, stride 2^16, is_factor)",
+    "sieve::SieveTable::{new, reset, add, add_overflow, bucket}, SieveTableLarge::{new, reset, add, add_overflow, bucket_offsets}",
+    "fbase::cofactor (trial division of the listed primes, size tests, single/double large prime split, the debug assertion through "
+    "a model of fbase::certainly_composite on the Montgomery routines of C07)",
+]
+UNMODELLED = [
+    "sieve.rs: the byte array blk (log accumulation in sieve_block), skipbits, thresholds and the SIMD scan of smooths, i.e. WHICH "
+    "positions are reported: positions are an input of the model (taken from the implementation's answer for the comparison)",
+    "no-panic (totality) of the sieve model on valid inputs is not proved: the theorems are 'whenever the model returns ...'; "
+    "panic sites are part of the model and are compared with the code in both build profiles",
+    "Dividers::{modu16, modi64, divmod_uint} are modelled as %, / (property C08); fbase::try_factor64 (Pollard rho / ECM) is a parameter "
+    "of the cofactor model (the driver replays the pair returned by the implementation)",
+    "memory safety of get_unchecked / transmute((u8,u8)) layouts: the model indexes the same cells and returns `panic` where an index "
+    "leaves the array, it does not model undefined behaviour",
+]
+CLAIM = ("Lean theorems, for all factor bases / root tables / block numbers / positions, about an executable model of sieve.rs and "
+         "fbase::cofactor: after Sieve::new (fresh or recycled tables with arbitrary stale contents) and any number of "
+         "sieve_block/next_block rounds the cursor of every small prime is (root - b*32768) mod p and reduced; the tests smooths applies "
+         "(modu16(r) == off; r == off || r == off + p) hold exactly when the position is congruent to the root; every (offset, prime) "
+         "added to a bucket table is found by the lookup except for exactly n_overflows - 32 counted losses (large tables: none); "
+         "reset hides every stale entry; hence the factor list of ANY position contains every factor-base prime whose root matches, up "
+         "to the counted losses of the size classes 16..18 (also after rehash); cofactor's factors multiply back and its cofactor has no "
+         "listed prime factor, so it is 1 or has only prime factors above the bound when the list is complete. The model is tied to the "
+         "code by differential runs through the public API (cursor hashes, overflow counters, bucket fill, factor lists) in the release "
+         "and checked profiles; an independent Python oracle judges every reported position against every factor-base prime.")
+LEVEL_NOTE = ("Trusted: Lean kernel (+propext, Classical.choice, Quot.sound); the hand-written model's correspondence to the Rust code "
+              "(sampled by the harness in both profiles, not proved); Python integers in the oracle. Theorems are partial-correctness "
+              "statements about the model (panic freedom is not proved). Which positions are reported is outside the model. Dividers "
+              "routines are taken exact (C08), try_factor64 enters as a named hypothesis.")
 TECHNIQUE = "Lean 4 proof about a hand model + differential correspondence check + spec oracle"
